@@ -208,11 +208,12 @@ StepQ(ev) ==
                    THEN [qs EXCEPT ![ev.q] = QOfBits(QW(ev), QFr(ev), ev.bits)] ELSE qs
 
 -----------------------------------------------------------------------------
-Init == regs = RegsInit /\ qs = QsInit /\ l = 1 /\ bad = 0
+Init == regs = RegsInit /\ qs = QsInit /\ l = 1 /\ bad = 0 /\ TLCSet(42, 0)
 
 Step ==
   /\ l <= Len(Rec)
   /\ l' = l + 1
+  /\ TLCSet(42, bad)       \* (register read by the postcondition; single worker)
   /\ LET ev == Rec[l] IN
      IF ev.op = "reset" THEN Reset /\ bad' = bad
      ELSE IF ev.op \in QOps THEN StepQ(ev)
@@ -220,7 +221,9 @@ Step ==
 
 Spec == Init /\ [][Step]_vars
 
+\* the number of rejected events, for the checker to cross-check against the MISMATCH lines it parsed
+\* (register 42 holds `bad` before the last step; the last event's own verdict is added by its MISMATCH line)
 Accepted ==
-  IF TLCGet("stats").diameter - 1 = Len(Rec) THEN TRUE
+  IF TLCGet("stats").diameter - 1 = Len(Rec) THEN PrintT(<<"BADCOUNT-BEFORE-LAST", TLCGet(42)>>)
   ELSE PrintT(<<"STUCK", TLCGet("stats").diameter, Rec[TLCGet("stats").diameter]>>) /\ FALSE
 =======================================================================
